@@ -10,10 +10,12 @@ let sub_of_sx x = match Sexp.list x with
 let sx_sub s = Sexp.L [Sexp.A "s"; sx_bytes s.s_share; sx_bytes s.s_filter; sx_n s.s_id; sx_n s.s_qos;
                        sx_bool s.s_nl; sx_bool s.s_rap; sx_n s.s_rh]
 
-let op_of_sx x = match Sexp.list x with
-  | [Sexp.A "sub"; c; s] -> OSub (bytes_of_sx c, sub_of_sx s)
-  | [Sexp.A "unsub"; c; t] -> OUnsub (bytes_of_sx c, bytes_of_sx t)
-  | [Sexp.A "unsuball"; c] -> OUnsubAll (bytes_of_sx c)
+(* one call carrying several items is the sequence of the single-item operations *)
+let ops_of_sx x = match Sexp.list x with
+  | [Sexp.A "sub"; c; s] -> [OSub (bytes_of_sx c, sub_of_sx s)]
+  | Sexp.A "subm" :: c :: ss -> List.map (fun s -> OSub (bytes_of_sx c, sub_of_sx s)) ss
+  | Sexp.A "unsub" :: c :: ts -> List.map (fun t -> OUnsub (bytes_of_sx c, bytes_of_sx t)) ts
+  | [Sexp.A "unsuball"; c] -> [OUnsubAll (bytes_of_sx c)]
   | _ -> failwith "op"
 
 let q_of_sx x = match Sexp.list x with
@@ -41,7 +43,7 @@ let sx_ires = function
 
 (* which: `C02 | `C11 selects the property oracle *)
 let run which (input : Sexp.t) (impl : Sexp.t) : Verdict.t =
-  let ops = List.map op_of_sx (Sexp.field "ops" input) in
+  let ops = List.concat_map ops_of_sx (Sexp.field "ops" input) in
   let qs = List.map q_of_sx (Sexp.field "queries" input) in
   let d = db_run ops in
   let sp = spec_run ops in
